@@ -182,7 +182,8 @@ class C02(Check):
             "SACKs with cumulative point anywhere around the outstanding range and 0-4 gap blocks (also inverted / "
             "huge), T3 expiries, deferred transmit tasks, TSN origins at wrap points, peer rwnd 0..1 MiB; k=2: 1-13 round-trip "
             "measurements (realistic, zero, negative, denormal, huge, infinite, NaN) given to _update_rto; k=1: two "
-            "real endpoints, fault prefix + fault-free suffix; distinct by (case, outputs); non-trivial = at least "
+            "real endpoints, fault prefix + fault-free suffix (30 % of them: one stream id used by 2-3 channels in a row, DCEP-opened or "
+            "negotiated, closed by either side, senders refilling from a 'bufferedamountlow' handler); distinct by (case, outputs); non-trivial = at least "
             "one retransmission or fast-recovery entry or T3 expiry with outstanding data")
 
     # ---------------------------------------------------------------- the float model of _update_rto, run inside Coq
@@ -234,6 +235,9 @@ class C02(Check):
         if r0 < 0.04:
             return gen_rto_case(rng)
         if rng.random() < 0.15:
+            if rng.random() < 0.3:
+                # a stream id used by several channels in a row; senders refilling from a 'bufferedamountlow' handler
+                return SC.gen_recycle(rng)
             return SC.gen_scenario(rng, reliable_only=(rng.random() < 0.5), big=(rng.random() < 0.3))
         return gen_tx_case(rng)
 
